@@ -20,6 +20,7 @@ Inductive stmt : Type :=
 | SFor (i : ident) (body : block)                  (* for i in range(n) *)
 | SReturn (e : option pexpr)
 | SAssignR (x : ident) (r : rhs)                   (* x = [elt for t in range(n)]  (Lang/InferComp.v) *)
+| STuple (xs : list ident) (es : list pexpr)       (* x1, x2, ... = e1, e2, ...  (names on the left, a tuple/list display on the right) *)
 with block : Type := BNil | BCons (s : stmt) (r : block)
 with branches : Type := BrNil | BrCons (b : block) (r : branches)
 with oblock : Type := ONone | OSome (b : block).
@@ -134,6 +135,49 @@ Section Block.
                                    (st_decls st ++ [(x, cpp_type t)]) (add_label (st_acc st) x t))
     end.
 
+  (* tuple assignment (the Tuple/List target branch of _handle_assignment_ast).  The right-hand sides are inferred left to
+     right (threading var_types), then var_types[x_i] = t_i for every target.  At column 0 with every target new the names
+     become globals directly; otherwise every value goes through a temporary `__tmp_assign_k` declared with the C type
+     of its label - recorded in [a_labels] under [tmp_marker] (a text no identifier has) - and a target is declared
+     iff it is not declared yet.  Fewer values than names: the code raises IndexError (rejected). *)
+  Fixpoint infer_ds (s : S) (c : dctx) (es : list pexpr) : option (list ty * dctx * S) :=
+    match es with
+    | [] => Some ([], c, s)
+    | e :: r =>
+        match infer_d s c e with
+        | None => None
+        | Some (t, c1, s1) =>
+            match infer_ds s1 c1 r with
+            | None => None
+            | Some (ts, c2, s2) => Some (t :: ts, c2, s2)
+            end
+        end
+    end.
+  Definition tmp_marker : ident := [35;116;109;112].         (* "#tmp" *)
+  Definition do_tuple (glob : bool) (s : S) (st : bstate) (xs : list ident) (es : list pexpr) : option (S * bstate) :=
+    let es1 := firstn (length xs) es in
+    if Nat.ltb (length es1) (length xs) then None else
+    match infer_ds s (st_ctx st) es1 with
+    | None => None
+    | Some (ts, c1, s1) =>
+        let xts := combine xs ts in
+        let types1 := fold_left (fun G xt => tset G (fst xt) (snd xt)) xts (d_types c1) in
+        let all_new := forallb (fun x => negb (tmem x (d_decl c1))) xs in
+        let a0 := st_acc st in
+        if all_new && glob then
+          Some (s1, mk_bstate (mk_dctx types1 (fold_left add_name xs (d_decl c1)) (d_promo c1))
+                              (st_decls st ++ map (fun xt => (fst xt, cpp_type (snd xt))) xts)
+                              (mk_acc (a_labels a0 ++ xts) (a_rets a0) (a_fn a0)))
+        else
+          let step := fun (acc0 : list ident * list (ident * cty)) (xt : ident * ty) =>
+                        if tmem (fst xt) (fst acc0) then acc0
+                        else (fst acc0 ++ [fst xt], snd acc0 ++ [(fst xt, cpp_type (snd xt))]) in
+          let '(decl2, newdecls) := fold_left step xts (d_decl c1, []) in
+          Some (s1, mk_bstate (mk_dctx types1 decl2 (d_promo c1))
+                              (st_decls st ++ newdecls)
+                              (mk_acc (a_labels a0 ++ map (fun t => (tmp_marker, t)) ts ++ xts) (a_rets a0) (a_fn a0)))
+    end.
+
   (* lines 1828-1852: never declares *)
   Definition do_aug (s : S) (st : bstate) (x : ident) (op : binop) (e : pexpr) : option (S * bstate) :=
     match op with
@@ -183,6 +227,7 @@ Section Block.
     | SAug v op e => do_aug s st v op e
     | SReturn e => do_return s st e
     | SAssignR v r => do_assign_r s st v r
+    | STuple xs es => do_tuple false s st xs es
     | SIf brs els =>
         let base := st_ctx st in
         match run_branches s base (d_promo base) (st_acc st) brs with
@@ -271,7 +316,8 @@ Record fsrc := mk_fsrc {
   fs_ret : option text;                           (* annotated return *)
   fs_body : block
 }.
-Record fdef := mk_fdef { fd_params : list (ident * cty); fd_ret : cty; fd_locals : list (ident * cty) }.
+Record fdef := mk_fdef { fd_params : list (ident * cty); fd_ret : cty; fd_locals : list (ident * cty);
+                         fd_tmps : list cty }.        (* the tuple-assignment temporaries declared inside the body *)
 
 Record fenv := mk_fenv {
   fe_src : list (ident * fsrc);                                   (* function_sources *)
@@ -332,7 +378,9 @@ Definition parse_function_core (C : option ictx) (fe : fenv) (cur : dctx) (name 
                     then aset (fe_alias fe) name (sset (get_or [] (tlookup name (fe_alias fe))) requested final)
                     else (match tlookup name (fe_alias fe) with Some _ => fe_alias fe | None => aset (fe_alias fe) name [] end) in
           let d := mk_fdef (map (fun pt => (fst (fst pt), cpp_type (snd pt))) (combine params final))
-                           (cpp_type merged) (st_decls st1) in
+                           (cpp_type merged) (st_decls st1)
+                           (map (fun xt => cpp_type (snd xt))
+                                (filter (fun xt => text_eqb (fst xt) tmp_marker) (a_labels (st_acc st1)))) in
           let defs := aset (fe_defs fe) name (sset (get_or [] (tlookup name (fe_defs fe))) final d) in
           Some (mk_fenv (aset (fe_src fe) name src) (aset F0 name (FVariants vs2)) al defs (fe_calls fe) (fe_primary fe) (fe_err fe),
                 share_back (d_promo cur) (d_promo (st_ctx st1)), final)
@@ -403,7 +451,11 @@ Definition pstate0 : pstate := mk_pstate fenv0 empty_ctx [] [] [].
 Definition run_item (C : option ictx) (ps : pstate) (it : item) : option pstate :=
   match it with
   | IStmt s =>
-      match run_stmt fenv (call_dyn C) C (p_fe ps) (mk_bstate (p_ctx ps) (p_globals ps) (mk_acc (p_labels ps) [] false)) s with
+      match (match s with
+             | STuple xs es =>                       (* column 0 is the global scope: new names need no temporaries *)
+                 do_tuple fenv (call_dyn C) C true (p_fe ps) (mk_bstate (p_ctx ps) (p_globals ps) (mk_acc (p_labels ps) [] false)) xs es
+             | _ => run_stmt fenv (call_dyn C) C (p_fe ps) (mk_bstate (p_ctx ps) (p_globals ps) (mk_acc (p_labels ps) [] false)) s
+             end) with
       | None => None
       | Some (fe1, st1) =>
           if fe_err fe1 then None
